@@ -33,6 +33,7 @@ class WorkdayAlarm : public Alarm
 {
   public:
     using Alarm::Alarm;
+    virtual ~WorkdayAlarm();
 
     /**
      * \brief 初始化
